@@ -252,6 +252,9 @@ pub struct SimConfig {
     pub yield_on_reads: bool,
     /// Treat uncontended lock acquisitions as scheduling points.
     pub yield_on_locks: bool,
+    /// Fairness bound: a runnable actor is never passed over for more than this many steps
+    /// (0 = unbounded). Models "no live node stalls longer than ...".
+    pub max_starvation: u64,
 }
 
 impl Default for SimConfig {
@@ -264,6 +267,7 @@ impl Default for SimConfig {
             watchdog: Duration::from_secs(30),
             yield_on_reads: true,
             yield_on_locks: true,
+            max_starvation: 0,
         }
     }
 }
@@ -401,6 +405,7 @@ impl Sim {
         let mut hash: u64 = 0xcbf2_9ce4_8422_2325;
         let mut replay_pos = 0usize;
         let mut stop = false;
+        let mut waiting_since: Vec<u64> = vec![0; n];
 
         // Wait until every actor has registered its Start point.
         {
@@ -498,6 +503,16 @@ impl Sim {
                     },
                 }
             };
+            // fairness bound (not applied when replaying a recorded vector)
+            let choice = if self.cfg.replay.is_none() && self.cfg.max_starvation > 0 {
+                match runnable.iter().copied().filter(|&r| report.steps.saturating_sub(waiting_since[r]) > self.cfg.max_starvation).min_by_key(|&r| waiting_since[r]) {
+                    Some(starved) => starved,
+                    None => choice,
+                }
+            } else {
+                choice
+            };
+            waiting_since[choice] = report.steps;
             report.decisions.push(choice as u32);
             if let Some(l) = last {
                 if l != choice {
